@@ -60,7 +60,10 @@ template<class U, U a, U b, class T> static void static_sequences(Acc& acc, cons
     { auto o=ConvertStatically<U,a,b>(Dyad<T>(take<T,9>(xs,at))); seqcmp(acc,o.xx_xy_xz_yx_yy_yz_zx_zy_zz().data(),ys,at,9); } } }
 template<class T> static std::vector<T> values(uint64_t seed, Q la, Q lr, bool affine, int per){
   // exponents e such that x, x*mag_a and the result stay well inside the normal range
-  const int emin = std::numeric_limits<T>::min_exponent + 16, emax = std::numeric_limits<T>::max_exponent - 16;
+  // margin to the ends of the normal range: every leg of a multiplicative conversion is ONE multiplication or division by a constant, so nothing may overflow or lose
+  // precision unless x, its SI image or the result itself comes within two binades of the ends; the affine (degree Celsius / Fahrenheit) bodies keep a wide margin
+  const int margin = affine ? 16 : 2;
+  const int emin = std::numeric_limits<T>::min_exponent + margin, emax = std::numeric_limits<T>::max_exponent - margin;
   double a = (double)la, r = (double)lr;
   int lo = emin - (int)std::floor(std::min(0.0, std::min(a, r))) , hi = emax - (int)std::ceil(std::max(0.0, std::max(a, r)));
   std::vector<T> v; std::mt19937_64 g(seed);
